@@ -18,6 +18,7 @@ class Counter:
         self.n = 0
         self.fail_at = fail_at
         self.where = None
+        self.names = []            # (file:function) of every counted call, when only counting
 
     def __call__(self, frame, event, arg):
         if event != "call":
@@ -26,13 +27,15 @@ class Counter:
         if not co.co_filename.startswith(PKG):
             return None
         self.n += 1
+        if self.fail_at is None:
+            self.names.append("%s:%s" % (os.path.basename(co.co_filename), co.co_name))
         if self.fail_at is not None and self.n == self.fail_at:
             self.where = "%s:%s" % (os.path.basename(co.co_filename), co.co_name)
             raise Injected(self.where)
         return None
 
 
-def count_calls(fn):
+def count_calls(fn, names=False):
     c = Counter()
     old = sys.gettrace()
     sys.settrace(c)
@@ -40,7 +43,19 @@ def count_calls(fn):
         fn()
     finally:
         sys.settrace(old)
-    return c.n
+    return (c.n, c.names) if names else c.n
+
+
+def site_points(names, per_site=3):
+    """call indices (1-based) covering every distinct internal function: its first, middle and last call"""
+    where = {}
+    for i, nm in enumerate(names):
+        where.setdefault(nm, []).append(i + 1)
+    ks = set()
+    for nm, idx in where.items():
+        picks = [idx[0], idx[-1], idx[len(idx) // 2]][:per_site]
+        ks.update(picks)
+    return sorted(ks)
 
 
 def run_with_fault(fn, k):
